@@ -11,7 +11,7 @@ import math
 from vlib.gen import net as gnet, ctrlgen
 from vlib.ref import hyd as ref
 from vlib import simobs
-from vlib.props import common
+from vlib.props import common, suite
 
 ID = 'C02'
 LEVEL = 'exploration'
@@ -37,6 +37,10 @@ CASE_TIMEOUT = {'quick': 120, 'thorough': 300}
 
 
 def n_cases(tier):
+    return base_cases(tier) + len(suite.files(tier))     # + the repository's own tests under the monitor (vlib/props/suite.py)
+
+
+def base_cases(tier):
     return 220 if tier == 'quick' else 3200
 
 
@@ -112,6 +116,8 @@ def run_testnet(c, rng):
 
 
 def run_case(c, rng):
+    if suite.maybe_run(c, ID, base_cases(c.tier)):
+        return
     if c.index % 20 == 17:
         return run_testnet(c, rng)
     kind = c.index % 4
